@@ -114,14 +114,15 @@ class Ocp(Stage):
             self._transcribe_recurse(phase=2,placeholders=self.placeholders_transcribed,**kwargs)
     
     def _untranscribe(self,**kwargs):
-        if self.is_transcribed:
-            self._transcribed_placeholders.clear()
-            self._untranscribe_recurse(phase=0)
-            self._placeholders_untranscribe_recurse(1)
-            self._untranscribe_recurse(phase=1)
-            self._original._set_transcribed(False)
+        # Not only when the transcribed flag is set: after a change of the specification the flag
+        # is already cleared while the method objects still hold the previous transcription
+        self._transcribed_placeholders.clear()
+        self._untranscribe_recurse(phase=0)
+        self._placeholders_untranscribe_recurse(1)
+        self._untranscribe_recurse(phase=1)
+        self._original._set_transcribed(False)
 
-            self._untranscribe_recurse(phase=2)
+        self._untranscribe_recurse(phase=2)
 
     @property
     @transcribed
